@@ -665,7 +665,7 @@ func TestC20Hazard(t *testing.T) {
 		peers := gen.Peers(r, 2)
 		self, other := peers[0], peers[1]
 		v := gen.SimpleVoucher("VT0", "v")
-		switch c.Index % 8 {
+		switch c.Index % 9 {
 		case 3:
 			// (ii) the responder's graphsync request (carrying its acceptance) is in the incoming-request
 			// hook while the same channel is being closed / failed: hook and cleanup meet
@@ -742,6 +742,38 @@ func TestC20Hazard(t *testing.T) {
 				f.tr.PauseChannel(bg, chid)
 			})
 			c.Count("hazard.cleanup-during-open", 1)
+		case 8:
+			// (viii) block reports of the same kind for the SAME channel from several goroutines at the same
+			// instant (overlapping old and restarted transport requests do that): every report returns
+			f := newMgrFixPlain(c, self, nil)
+			tid := datatransfer.TransferID(77)
+			chid := datatransfer.ChannelID{Initiator: other, Responder: self, ID: tid}
+			req, _ := message.NewRequest(tid, false, true, &v, dummyCid, gen.AllSelector)
+			w, _ := doubles.Reencode(req)
+			f.tp.Events().OnRequestReceived(chid, w.(datatransfer.Request))
+			f.tp.Events().OnTransferInitiated(chid)
+			c.HangCheck("C20", "simultaneous-block-reports-same-channel", 15*time.Second, func() {
+				idx := int64(0)
+				for round := 0; round < 2000; round++ {
+					var wg sync.WaitGroup
+					start := make(chan struct{})
+					n := 2 + round%4
+					for g := 0; g < n; g++ {
+						wg.Add(1)
+						i := idx + int64(g) + 1
+						go func() {
+							defer wg.Done()
+							<-start
+							f.tp.Events().OnDataQueued(chid, dummyLink, 10, i, true)
+						}()
+					}
+					idx += int64(n)
+					close(start)
+					wg.Wait()
+				}
+			})
+			c.HangCheck("C20", "manager-stop", 20*time.Second, func() { f.m.Stop(bg) })
+			c.Count("hazard.simultaneous-reports-same-channel", 2000)
 		case 7:
 			// (vii) Stop arrives while a per-transfer subscriber is still handling the channel's terminal event
 			f := newMgrFixPlain(c, self, nil)
@@ -826,7 +858,7 @@ func TestC20Hazard(t *testing.T) {
 			var chid datatransfer.ChannelID
 			inLoop, release := make(chan struct{}, 1), make(chan struct{})
 			var deliver func()
-			if c.Index%8 == 4 {
+			if c.Index%9 == 4 {
 				tid := datatransfer.TransferID(21)
 				chid = datatransfer.ChannelID{Initiator: other, Responder: self, ID: tid}
 				req, _ := message.NewRequest(tid, false, true, &v, dummyCid, gen.AllSelector)
@@ -858,8 +890,8 @@ func TestC20Hazard(t *testing.T) {
 				default:
 				}
 			})
-			useResume := c.Index%16 >= 8
-			c.HangCheck("C20", fmt.Sprintf("pause-resume-while-message-queued-in-graphsync-loop case=%d resume=%v", c.Index%8, useResume), 6*time.Second, func() {
+			useResume := c.Index%18 >= 9
+			c.HangCheck("C20", fmt.Sprintf("pause-resume-while-message-queued-in-graphsync-loop case=%d resume=%v", c.Index%9, useResume), 6*time.Second, func() {
 				var wg sync.WaitGroup
 				wg.Add(2)
 				go func() { defer wg.Done(); deliver() }()
@@ -893,10 +925,10 @@ func TestC20Hazard(t *testing.T) {
 			c.HangCheck("C20", "manager-stop", 20*time.Second, func() { f.m.Stop(bg) })
 			c.Count("hazard.pause-vs-queued-graphsync-message", 1)
 		}
-		c.Mark("hazard=%d", c.Index%8)
+		c.Mark("hazard=%d", c.Index%9)
 		c.NonTrivial()
 		if c.Index < 3 {
-			c.Sample(map[string]any{"hazard": []string{"gs request carrying a dt cancel request", "OnChannelOpened refuses inside the outgoing-request hook", "CleanupChannel between OpenChannel and its outgoing-request hook", "incoming-request hook overlapping the ending of the same channel", "pause/resume while an incoming request for the channel is queued in graphsync's response manager loop", "pause/resume while an incoming response for the channel is queued in graphsync's request manager loop", "Stop while block reports that reach the data limit are in flight", "Stop while a per-transfer subscriber handles the terminal event"}[c.Index%8]})
+			c.Sample(map[string]any{"hazard": []string{"gs request carrying a dt cancel request", "OnChannelOpened refuses inside the outgoing-request hook", "CleanupChannel between OpenChannel and its outgoing-request hook", "incoming-request hook overlapping the ending of the same channel", "pause/resume while an incoming request for the channel is queued in graphsync's response manager loop", "pause/resume while an incoming response for the channel is queued in graphsync's request manager loop", "Stop while block reports that reach the data limit are in flight", "Stop while a per-transfer subscriber handles the terminal event", "simultaneous block reports of one kind for one channel"}[c.Index%9]})
 		}
 	})
 }
